@@ -55,6 +55,11 @@ def cases(tier, seed):
         for b in SHAPES:
             for tp in TAG_PATTERNS:
                 out.append({"shapes": [a, b], "tags": tp})
+    # histories: ANOTHER client (other tags, other package) was generated earlier in the same process; the package generated now must
+    # still have its three faces in parity
+    for a, b in (("plain", "opt3"), ("sse", "bulk"), ("multi", "long")):
+        for tp in TAG_PATTERNS:
+            out.append({"shapes": [a, b], "tags": tp, "after": "other-client"})
     if tier != "quick":
         hard = ["multi", "bytes", "sse", "long"]
         for a in hard:
@@ -125,7 +130,7 @@ def compare_tag(tag, t, add):
 
 def run_case(case):
     doc = build(case)
-    label = "+".join(case["shapes"]) + "|tags=" + case["tags"]
+    label = "+".join(case["shapes"]) + "|tags=" + case["tags"] + ("|after=" + case["after"] if case.get("after") else "")
     found = []
     seen = set()
 
@@ -137,7 +142,10 @@ def run_case(case):
 
     with sandbox.scratch() as d:
         root = os.path.join(d, "proj")
-        files, err = sandbox.generate(doc, root)
+        if case.get("after"):
+            first = build({"shapes": ["bodyparams", "bytes"], "tags": "pascal+camel"})
+            sandbox.generate(first, os.path.join(d, "earlier"), output_package="earlier_client")
+        files, err = sandbox.generate(doc, root, reset=not case.get("after"))
         if err is not None:
             return {"findings": [], "outcome": "rejected:" + type(err).__name__, "nontrivial": label}
         res = sandbox.zygote_job({"roots": [root], "allow": ["cli"], "driver": "parity", "args": {"package": "cli", "core": "cli.core"}})
